@@ -13,6 +13,7 @@ from .lang import Env, Failed, HarnessError, InjectedFault, Skipped, op_deps
 
 mon = sys.monitoring
 M64 = (1 << 64) - 1
+BIG_Q = 1 << 30
 
 
 def _free_tool():
@@ -37,6 +38,36 @@ class RandomDecider:
         a = runnable[self.rng.randrange(len(runnable))]
         # geometric-ish quantum with the run's mean
         q = 1 + int(self.rng.expovariate(1.0 / self.mean_q)) if self.mean_q > 1 else 1
+        self.trace.append([a, q])
+        return a, q
+
+
+class PCTDecider:
+    """PCT-style schedule: random actor priorities, the highest-priority runnable actor runs without pre-emption
+    except at d randomly placed change points, where the running actor drops to the lowest priority."""
+
+    def __init__(self, rng, nact, d, est_steps):
+        self.rng = rng
+        order = list(range(nact))
+        rng.shuffle(order)
+        self.prio = {a: nact - i for i, a in enumerate(order)}
+        self.low = 0
+        self.points = sorted(rng.randint(1, max(2, est_steps)) for _ in range(d))
+        self.granted = 0
+        self.last = None
+        self.trace = []
+
+    def pick(self, runnable):
+        while self.points and self.granted >= self.points[0]:
+            self.points.pop(0)
+            if self.last is not None:
+                self.low -= 1
+                self.prio[self.last] = self.low
+        a = max(runnable, key=lambda x: (self.prio.get(x, 0), -x))
+        q = (self.points[0] - self.granted) if self.points else BIG_Q
+        q = max(1, q)
+        self.granted += q if q < BIG_Q else 0
+        self.last = a
         self.trace.append([a, q])
         return a, q
 
@@ -299,9 +330,6 @@ def measure(program, share_tables=True, gran="LINE"):
     sim = Sim(program, {i: 0 for i in range(len(program))}, dec, share_tables=share_tables, gran=gran)
     sim.run()
     return sim.op_len, sim
-
-
-BIG_Q = 1 << 30
 
 
 def coalesce(trace):
